@@ -529,12 +529,16 @@ func (r *reporter) reportCopyMetric(
 	bucket string,
 	bucketID string,
 ) {
+	verifYield(41)
 	r.pending.Inc()
 	defer r.pending.Dec()
+	verifYield(42)
 
 	if r.done.Load() {
+		verifYield(44)
 		return
 	}
+	verifYield(43)
 
 	m.Timestamp = r.now.Load()
 
@@ -550,19 +554,25 @@ func (r *reporter) reportCopyMetric(
 	case r.metCh <- sm:
 	case <-r.donech:
 	}
+	verifYield(44)
 }
 
 // Flush sends an empty sizedMetric to signal a flush.
 func (r *reporter) Flush() {
 	r.pending.Inc()
 	defer r.pending.Dec()
+	verifYield(46)
 
 	if r.done.Load() {
+		verifYield(49)
 		return
 	}
+	verifYield(47)
 
 	r.reportInternalMetrics()
+	verifYield(48)
 	r.metCh <- sizedMetric{}
+	verifYield(49)
 }
 
 // Close waits for metrics to be flushed before closing the backend.
@@ -570,14 +580,19 @@ func (r *reporter) Close() (err error) {
 	if !r.done.CAS(false, true) {
 		return errAlreadyClosed
 	}
+	verifYield(51)
 
 	// Wait for any pending reports to complete.
 	for r.pending.Load() > 0 {
+		verifYield(52)
 		runtime.Gosched()
 	}
+	verifYield(53)
 
 	close(r.donech)
+	verifYield(54)
 	close(r.metCh)
+	verifYield(55)
 	r.wg.Wait()
 
 	return nil
@@ -606,8 +621,10 @@ func (r *reporter) process() {
 		mets         = make([]m3thrift.Metric, 0, r.freeBytes/10)
 		bytes        int32
 	)
+	verifYield(60)
 
 	for smet := range r.metCh {
+		verifYield(61)
 		flush := !smet.set && len(mets) > 0
 		if flush || bytes+smet.size > r.freeBytes {
 			r.numMetrics.Add(int64(len(mets)))
@@ -649,6 +666,7 @@ func (r *reporter) process() {
 		bytes += smet.size
 	}
 
+	verifYield(62)
 	// Final flush
 	r.flush(mets)
 }
@@ -816,6 +834,7 @@ func (h cachedHistogram) ValueBucket(
 
 	return reportSamplesFunc(func(value int64) {
 		m.Value.Count = value
+		verifYield(40)
 		rep.reportCopyMetric(m, size, bucket, bucketID)
 	})
 }
@@ -847,6 +866,7 @@ func (h cachedHistogram) DurationBucket(
 
 	return reportSamplesFunc(func(value int64) {
 		m.Value.Count = value
+		verifYield(40)
 		rep.reportCopyMetric(m, size, bucket, bucketID)
 	})
 }
